@@ -289,7 +289,7 @@ class Simulation(object):
             if progress_bar:
                 remaining_time = max_simulation_time - self.progress_bar.n
                 time_increment = next_active_node.next_event_date - self.current_time
-                self.progress_bar.update(min(time_increment, remaining_time))
+                self.progress_bar.update(float(min(time_increment, remaining_time)))
 
             self.current_time = next_active_node.next_event_date
 
